@@ -46,7 +46,7 @@ def strategy(tier):
         # counter 'n': fragments mutate a nested list in place; conditions read it through __old__
         # payload: external events carry a list that the consuming transitions read and extend
         return {'spec': spec, 'ops': ops, 'bs': bs,
-                'counter': draw(st.sampled_from(['v', 'n', 'o'])),
+                'counter': draw(st.sampled_from(['v', 'n', 'o', 't'])),
                 'payload': draw(st.booleans()),
                 # shared_text: one source text is used both as executed code (actions, entry
                 # code) and as evaluated code (guards)
